@@ -737,17 +737,24 @@ pub fn c14(em: &mut Emit, _thorough: bool, _seed: u64) {
             ("x-ent-a".into(), b"2".to_vec()),
         ],
     ];
-    let firsts: [(&str, Option<&[u8]>, &str); 4] = [
-        ("plain", None, "GET"),
-        ("range", Some(b"bytes=1-2"), "GET"),
-        ("unsat", Some(b"bytes=99-"), "GET"),
-        ("multi", Some(b"bytes=0-0,2-2"), "HEAD"),
+    // (name, Range, method, entity length, send the entity's own ETag in If-Range)
+    let firsts: [(&str, Option<&[u8]>, &str, u64, bool); 10] = [
+        ("plain", None, "GET", 10, false),
+        ("range", Some(b"bytes=1-2"), "GET", 10, false),
+        ("unsat", Some(b"bytes=99-"), "GET", 10, false),
+        ("multi", Some(b"bytes=0-0,2-2"), "HEAD", 1000, false),
+        ("multi-get", Some(b"bytes=0-0,2-2"), "GET", 1000, false),
+        ("range-ir", Some(b"bytes=1-2"), "GET", 10, true),
+        ("unsat-ir", Some(b"bytes=99-"), "HEAD", 10, true),
+        ("multi-ir", Some(b"bytes=0-0,2-2"), "GET", 1000, true),
+        ("costly", Some(b"bytes=0-9, 100-119"), "GET", 140, false),
+        ("costly-ir", Some(b"bytes=0-9, 100-119"), "GET", 140, true),
     ];
     for et in &etags {
         for (mname, mt) in &mtimes {
             for hs in &header_sets {
-                for (fname, frange, fmethod) in &firsts {
-                    let len = if *fname == "multi" { 1000 } else { 10 };
+                for (fname, frange, fmethod, flen, fir) in &firsts {
+                    let len = *flen;
                     let mut e = HEntity::new(len);
                     e.etag = et.map(|t| t.to_vec());
                     e.mtime = mt.map(|(s, n)| UNIX_EPOCH + Duration::new(s, n));
@@ -755,6 +762,12 @@ pub fn c14(em: &mut Emit, _thorough: bool, _seed: u64) {
                     let mut q1 = HReq::get();
                     q1.method = (*fmethod).into();
                     q1.range = frange.map(|r| r.to_vec());
+                    if *fir {
+                        match et {
+                            Some(t) => q1.if_range = Some(t.to_vec()),
+                            None => continue,
+                        }
+                    }
                     let o1 = observe_serve(&q1, &e);
                     // --- header clauses on the first response
                     let mut ok = !o1.panicked;
@@ -790,18 +803,21 @@ pub fn c14(em: &mut Emit, _thorough: bool, _seed: u64) {
                             _ => fail("Date/Last-Modified missing".into()),
                         }
                     }
-                    let want_ent = matches!(o1.status, 200 | 206);
+                    // 200: all of them; single-range 206: all of them iff the request had no
+                    // If-Range; multipart 206: none at top level; 304/412/416: none
                     let multipart = matches!(o1.status, 206) && o1.header("content-range").is_none();
+                    let want_ent = o1.status == 200 || (o1.status == 206 && !multipart && q1.if_range.is_none());
+                    let forbid_ent = matches!(o1.status, 304 | 412 | 416) || multipart;
                     for (k, v) in hs {
                         let has = o1.header_all(k).iter().any(|x| x == v);
-                        if want_ent && !multipart && !has {
+                        if want_ent && !has {
                             fail(format!("entity header {} missing on {}", k, o1.status));
                         }
-                        if (!want_ent || multipart) && has {
+                        if forbid_ent && has {
                             fail(format!("entity header {} present on {}", k, o1.status));
                         }
                     }
-                    if let Plan::Multipart(phs, ..) = &o1.plan {
+                    if let (Plan::Multipart(phs, ..), None) = (&o1.plan, &q1.if_range) {
                         for (k, v) in hs {
                             let needle = [k.as_bytes(), b": ", &v[..], b"\r\n"].concat();
                             for ph in phs {
